@@ -29,7 +29,7 @@ func init() {
 		Assumptions: []string{"dates are labelled old/new at generation, at least 1 h from now-expiry, so the oracle never reads the clock", "TTL indexes with a partial filter and key paths that fan out over arrays of sub-documents are not generated"},
 		Batches:     func(tier string) int { return 16 },
 		Require: func(tier string) map[string]int64 {
-			return map[string]int64{"passes": 300, "docs_judged": 3000, "expired_expected": 500, "survivors_expected": 1500, "noop_passes": 50, "collections_without_ttl": 100, "array_dates": 200, "zero_second_indexes": 50, "background_passes_observed": 5, "idle_expiry_checks": 5, "compound_ttl_requests": 40}
+			return map[string]int64{"passes": 300, "docs_judged": 3000, "expired_expected": 500, "survivors_expected": 1500, "noop_passes": 50, "collections_without_ttl": 100, "array_dates": 200, "zero_second_indexes": 50, "background_passes_observed": 5, "idle_expiry_checks": 5, "compound_ttl_requests": 40, "plain_indexes_on_date_fields": 100}
 		},
 		Run: runC19,
 	})
@@ -210,6 +210,14 @@ func c19Build(c *fw.Ctx, w *world, r *fw.Rand, now time.Time, forceNoExpiry bool
 		}
 		if r.Bool() {
 			w.exec(&drv.Op{Kind: drv.CreateIndex, DB: "d", Coll: cc.name, Index: drv.IndexSpec{Keys: bson.D{{Key: "k", Value: int32(-1)}}, Partial: bson.D{{Key: "g", Value: bson.D{{Key: "$gt", Value: int32(2)}}}}}})
+		}
+		// an ordinary index on a field that holds (ancient) dates does not make
+		// them expire
+		for _, p := range paths {
+			if !used[p] && r.Bool() {
+				c.Count("plain_indexes_on_date_fields", 1)
+				w.exec(&drv.Op{Kind: drv.CreateIndex, DB: "d", Coll: cc.name, Index: drv.IndexSpec{Keys: bson.D{{Key: p, Value: int32(1)}}}})
+			}
 		}
 		// a compound index is never a TTL index: asking for one with
 		// expireAfterSeconds must be refused (single-field restriction), and
